@@ -120,7 +120,7 @@ structure St (V : Type) where
   reg : Bool
   /-- innermost call first -/
   stack : List (Frame V)
-  deriving Repr
+  deriving Repr, DecidableEq
 
 def St.init {V} : St V := { cache := [], reg := false, stack := [] }
 
@@ -304,8 +304,20 @@ def ownerCount (ms : List (Msg Nat)) (k : Key) : Nat := (msgValsOf k ms).sum
 /-- `count_all()` -/
 def ownerCountAll (ms : List (Msg Nat)) : Nat := (ms.map (·.val)).sum
 
+/-- the distinct elements of a list -/
+def dedup : List Nat → List Nat
+  | [] => []
+  | a :: l => if a ∈ dedup l then dedup l else a :: dedup l
+
 /-- keys with a map entry (`async_visit` creates the entry it visits): `size()` is its length -/
-def ownerKeys (ms : List (Msg Nat)) : List Key := (ms.map (·.key)).eraseDups
+def ownerKeys (ms : List (Msg Nat)) : List Key := dedup (ms.map (·.key))
+
+/-- the owner's map after executing the visits `ms` one after the other:
+`visit_wrapper` inserts the default value 0 if the key is absent, the visitor adds `to_add` -/
+def visitAll : List (Msg Nat) → Key → Option Nat
+  | [], _ => none
+  | m :: ms, k =>
+    if m.key = k then some ((visitAll ms k).getD 0 + m.val) else visitAll ms k
 
 /-- configuration of the counting_set count cache -/
 def csetCfg (nslots : Nat) : Cfg Nat :=
@@ -334,8 +346,6 @@ structure Net (V : Type) where
   flight : List (Nat × Msg V)
   /-- target container, all owners together: key ↦ value -/
   stored : List (Key × V)
-  /-- every value passed to `async_reduce` by the program (ghost) -/
-  contrib : List (Key × V)
 
 structure NetCfg (V : Type) where
   nslots : Nat
@@ -374,7 +384,7 @@ def netStep {V} (nc : NetCfg V) (n : Net V) : NetLabel V → Option (Net V)
     | some s =>
       match step (nc.at r) s (.ins k v) with
       | none => none
-      | some s' => some { n with ranks := n.ranks.set r s', contrib := (k, v) :: n.contrib }
+      | some s' => some { n with ranks := n.ranks.set r s' }
   | .deliver i =>
     match n.flight[i]? with
     | none => none
@@ -401,6 +411,12 @@ def netStep {V} (nc : NetCfg V) (n : Net V) : NetLabel V → Option (Net V)
           some { n with ranks := n.ranks.set r s', flight := (nc.dest r m, m) :: n.flight }
         | _, _ => some { n with ranks := n.ranks.set r s' }
 
+/-- the values the program contributed along a run (oldest first) -/
+def userContribs {V} : List (NetLabel V) → List (Key × V)
+  | [] => []
+  | .user _ k v :: ls => (k, v) :: userContribs ls
+  | _ :: ls => userContribs ls
+
 def netRun {V} (nc : NetCfg V) : Net V → List (NetLabel V) → Option (Net V)
   | n, [] => some n
   | n, l :: ls => match netStep nc n l with
@@ -408,14 +424,27 @@ def netRun {V} (nc : NetCfg V) : Net V → List (NetLabel V) → Option (Net V)
     | some n' => netRun nc n' ls
 
 def Net.init {V} (nranks : Nat) (stored : List (Key × V)) : Net V :=
-  { ranks := List.replicate nranks St.init, flight := [], stored := stored, contrib := [] }
+  { ranks := List.replicate nranks St.init, flight := [], stored := stored }
 
-/-- everything the system holds for key `k` -/
+/-- what all ranks hold for key `k` (cached, copied out, in progress) -/
+def heldAll {V} (nc : NetCfg V) (ranks : List (St V)) (k : Key) : Option V :=
+  ototal nc.op (ranks.map (fun s => held (nc.at 0) s k))
+
+/-- what is in flight for key `k` -/
+def flightTot {V} (nc : NetCfg V) (fl : List (Nat × Msg V)) (k : Key) : Option V :=
+  total nc.op (msgValsOf k (fl.map (·.2)))
+
+/-- everything the system holds for key `k`: stored ⊎ held on every rank ⊎ in flight -/
 def netHeld {V} (nc : NetCfg V) (n : Net V) (k : Key) : Option V :=
-  omerge nc.op (storedOf k n.stored)
-    (omerge nc.op
-      (ototal nc.op (n.ranks.map (fun s => held (nc.at 0) s k)))
-      (total nc.op (msgValsOf k (n.flight.map (·.2)))))
+  omerge nc.op (storedOf k n.stored) (omerge nc.op (heldAll nc n.ranks k) (flightTot nc n.flight k))
+
+/-- all ranks idle with empty caches and nothing in flight -/
+def netQuiet {V} (n : Net V) : Prop := (∀ s ∈ n.ranks, quiet s) ∧ n.flight = []
+
+/-- the rank a partial value for owner `o` is on after `j` flushes, starting on rank `r` -/
+def hopIter (nh : Nat → Nat → Nat) (o : Nat) : Nat → Nat → Nat
+  | 0, r => r
+  | j + 1, r => hopIter nh o j (nh r o)
 
 /-- hops a partial value for an owner `o` takes from rank `r` (at most `fuel`) -/
 def hopPath (nh : Nat → Nat → Nat) (o : Nat) : Nat → Nat → List Nat
